@@ -99,8 +99,10 @@ class Contract:
             self.loops[ordinal] = LoopSpec(ordinal)
         return self.loops[ordinal]
 
-    def fresh(self, expr, label=None):
-        self.fresh_result_.append((label or f"fresh[{len(self.fresh_result_)}]", expr))
+    def fresh(self, expr, label=None, each=False):
+        """the object `expr` denotes in the post-state was allocated by the call (not reachable from the arguments);
+        with each=True `expr` denotes a list whose every element must be such an object"""
+        self.fresh_result_.append((label or f"fresh[{len(self.fresh_result_)}]", ("each:" if each else "") + expr))
         return self
 
     def use_at_call_sites(self, result=None, kinds=None):
